@@ -33,13 +33,13 @@ namespace svmon
     Internal in;
     s.live = true;
     s.size = v.size (); s.cap = v.capacity ();
-    s.data = reinterpret_cast<const char *> (v.data ());
+    s.data = reinterpret_cast<const char *> (raw (v.data ()));
     s.esz = sizeof (typename V::value_type);
     s.inlined = v.inlined ();
     s.aid = alloc_id (v.get_allocator ());
     s.N = V::inline_capacity_v;
     s.values.clear (); s.serials.clear ();
-    const typename V::value_type *p = v.data ();
+    const typename V::value_type *p = raw (v.data ());
     for (size_t i = 0; i < s.size; ++i)
     {
       s.values.push_back (value_of (p[i]));
@@ -62,7 +62,7 @@ namespace svmon
     const size_t size = cv.size (), cap = cv.capacity (), maxs = cv.max_size ();
     const char *obj_b = reinterpret_cast<const char *> (&cv);
     const char *obj_e = obj_b + sizeof (V);
-    const T *d = cv.data ();
+    const T *d = raw (cv.data ());
     const char *db = reinterpret_cast<const char *> (d);
 
 #define SVMON_P(cond, mon, ...) do { if (! (cond)) violate ("C02", mon, __VA_ARGS__); } while (0)
